@@ -186,8 +186,14 @@ def rulesets(draw, max_pt=600, markov='maybe', prince=False, max_structs=4, norm
         if len(toks) > 1:
             base[big][0] = ''.join(toks[:-1])
         else:
-            nm = toks[0]
-            vars_[nm] = vars_[nm][:max(1, len(vars_[nm]) // 2)]
+            cand = [t for t in rsmodel.with_caps(toks) if t in vars_ and len(vars_[t]) > 1]
+            if cand:
+                nm = max(cand, key=lambda t: len(vars_[t]))
+                vars_[nm] = vars_[nm][:max(1, len(vars_[nm]) // 2)]
+            elif len(base) > 1:
+                del base[big]
+            else:
+                break
         vs, eb = rsmodel.effective(dict(m, m_levels=[[1, 0.5]]))
     if use_m:
         om = draw(omen_models())
